@@ -141,13 +141,13 @@ class Watch:
         finding = None
         if k == 'BinOp' and op == '+' and len(kids) >= 2 and isinstance(kids[0], list) and isinstance(kids[1], list):
             finding = 'concat'
-        elif k == 'ShortOp' and op == '+=' and kids and isinstance(kids[0], list) and isinstance(value, list):
-            finding = 'concat'
+        elif k == 'ShortOp' and op == '+=' and kids and isinstance(value, list):
+            finding = 'concat'          # x += <any iterable> on a list: the same unchecked in-place concatenation (a string operand adds its characters)
         elif k == 'CallOp':
             strs = [x for x in kids if isinstance(x, str) and len(x) >= CAP]
             if name not in ADDERS and strs and n <= max(len(x) for x in strs) + 1:
                 finding = 'string-derived'
-            elif name == '__setitem_with_op__' and len(kids) == 4 and kids[2] == '+=' and isinstance(kids[3], list):
+            elif name == '__setitem_with_op__' and len(kids) == 4 and kids[2] == '+=' and isinstance(kids[3], (list, str, tuple, dict)):
                 finding = 'concat'
         return {'finding': finding, 'what': 'a %s of %d elements (bound %d) produced by %s' % (type(value).__name__, n, self.B, k + (' ' + str(name or op) if (name or op) else '')),
                 'detail': {'src': self.src, 'producer': k, 'name_or_op': name or op, 'operand_kinds': [type(x).__name__ + (':%d' % len(x) if hasattr(x, '__len__') else '') for x in kids][:5]}}
